@@ -34,11 +34,9 @@ MUTANTS = [
       "    try:\n        ed25519.verify_signature(claimed_key, sig_bytes, msg)\n    except Exception:\n        pass\n", "C34.1"),
     M("key-from-announcement-body", CO, "    key_vs = claimed_key_vs\n    ann = json.loads(msg.decode(\"utf-8\"))\n",
       "    ann = json.loads(msg.decode(\"utf-8\"))\n    key_vs = ann.get(\"key\", claimed_key_vs)\n", "C34.1"),
-    M("client-skips-unsign", CL, "            self._process_announcement(ann, key_s)\n",
-      "            self._process_announcement(ann, key_s)\n", "C34.1",
-      edits=[(CL, "    def _got_error(self, f):\n",
-              "    def remote_announce_raw(self, anns):\n        for (ann, key_s) in anns:\n"
-              "            self._process_announcement(ann, key_s)\n\n    def _got_error(self, f):\n")]),
+    M("client-skips-unsign", CL, "    def _got_error(self, f):\n",
+      "    def remote_announce_raw(self, anns):\n        for (ann, key_s) in anns:\n"
+      "            self._process_announcement(ann, key_s)\n\n    def _got_error(self, f):\n", "C34.1"),
     # ---- C34.2 replay rule
     M("seqnum-equal-replaces", CL, "                if ann[\"seqnum\"] <= old[\"seqnum\"]:", "                if ann[\"seqnum\"] < old[\"seqnum\"]:", "C34.2"),
     M("seqnum-compare-flipped", CL, "                if ann[\"seqnum\"] <= old[\"seqnum\"]:", "                if ann[\"seqnum\"] >= old[\"seqnum\"]:", "C34.2"),
